@@ -16,7 +16,8 @@ from __future__ import annotations
 
 import threading
 
-from pyiron_workflow import as_function_node
+from pyiron_workflow import as_function_node, as_macro_node
+from pyiron_workflow.nodes.for_loop import for_node, for_node_factory
 
 CALLS: list = []
 _LOCK = threading.Lock()
@@ -31,9 +32,16 @@ def _log(*x):
         CALLS.append(x)
 
 
+def _boom(*args):
+    """a body copy FAILS for the rows in which one of its arguments is the string BAD"""
+    if any(isinstance(x, str) and x == "BAD" for x in args):
+        raise ValueError("body fails for BAD")
+
+
 @as_function_node("o", validate_output_labels=False)
 def B4(a, b, c, d="dd"):
     _log("B4", a, b, c, d)
+    _boom(a, b, c, d)
     o = ("g", a, b, c, d)
     return o
 
@@ -41,6 +49,7 @@ def B4(a, b, c, d="dd"):
 @as_function_node("p", "q", validate_output_labels=False)
 def B3(a, b, c):
     _log("B3", a, b, c)
+    _boom(a, b, c)
     p = ("p", a, b, c)
     q = ("q", a, b, c)
     return p, q
@@ -61,6 +70,39 @@ def B12(x0, x1, x2, x3, x4, x5, x6, x7, x8, x9, x10, x11="e"):
     o = ("w", x0, x1, x2, x3, x4, x5, x6, x7, x8, x9, x10, x11)
     o2 = ("v", x0, x1, x2, x3, x4, x5, x6, x7, x8, x9, x10, x11)
     return o, o2
+
+
+@as_function_node("t", validate_output_labels=False)
+def _Pack(a, b, c):
+    _boom(a, b, c)
+    t = (a, b, c)
+    return t
+
+
+@as_function_node("p", "q", validate_output_labels=False)
+def _Unpack(t):
+    p = ("p", *t)
+    q = ("q", *t)
+    return p, q
+
+
+@as_macro_node("p", "q")
+def MB(self, a, b, c):
+    """a MACRO as loop body: two chained function nodes computing what B3 computes"""
+    self.pack = _Pack(a, b, c)
+    self.unpack = _Unpack(self.pack)
+    return self.unpack.outputs.p, self.unpack.outputs.q
+
+
+# a LOOP as loop body (for in for): iterates its `a`, broadcasts `b` and `c`, returns the inner table
+NB = for_node_factory(B3, ("a",), (), True, None, True)
+
+
+@as_macro_node("df")
+def LoopMacro(self, a, b, c):
+    """a loop node INSIDE a macro (layout fixed: iterate `a`, zip `b`, broadcast `c`, table form)"""
+    self.loop = for_node(B3, iter_on=("a",), zip_on=("b",), a=a, b=b, c=c)
+    return self.loop.outputs.df
 
 
 @as_function_node("o", validate_output_labels=False)
